@@ -116,6 +116,7 @@ type NegScript struct {
 	SM         bool     `json:"sm"`
 	Resume     int      `json:"resume_reply"`
 	ResumeAlt  int      `json:"resume_reply_variant,omitempty"`
+	ResumedH   int      `json:"resumed_h,omitempty"` // the h of <resumed/>: what the server says it has handled
 	Bind       int      `json:"bind_reply"`
 	SessionRep int      `json:"session_reply"`
 	Enable     int      `json:"enable_reply"`
@@ -529,7 +530,7 @@ func (sc *SrvConn) handle(it *Item) {
 		sc.delay()
 		switch scr.Resume {
 		case ResumeOK:
-			sc.Send(fmt.Sprintf("<resumed xmlns='%s' previd='%s' h='0'/>", nsSM, xmlEscape(el.Attr("previd"))))
+			sc.Send(fmt.Sprintf("<resumed xmlns='%s' previd='%s' h='%d'/>", nsSM, xmlEscape(el.Attr("previd")), sc.S.Scripts[min(sc.Idx, len(sc.S.Scripts)-1)].ResumedH))
 			sc.establish("resumed")
 			sc.Enabled = true
 		case ResumeOtherID:
